@@ -368,6 +368,89 @@ return that do not start with a blank -/
 def referenceOk (r : Reference) : Bool :=
   decide (0 ≤ r.number ∧ r.number ≤ 9223372036854775807) && noEOL r.info &&
   (decide ((itoaB r.number).length < 3) || match r.info with | [] => true | c :: _ => !isDigit c) &&
+  (match r.pubmed with | some v => noEOL v | none => true) &&
   (presentLines r).all fun l => subValueOk l.v
+
+theorem subLinesText_length_ge (ls : List SubLine) : ls.length ≤ (subLinesText ls).length := by
+  induction ls with
+  | nil => simp [subLinesText]
+  | cons l ls ih =>
+    simp only [subLinesText, List.flatMap_cons, List.length_append, List.length_cons] at ih ⊢
+    have : 1 ≤ (subLineText l).length := by
+      simp only [subLineText, List.length_append, List.length_cons]; omega
+    omega
+
+/-- **REFERENCE** round trip: head line (number, padding, info) and the sub-fields that are
+present, followed by text that starts neither with a blank nor with a sub-field name -/
+theorem reference_roundtrip (f : Fields) (r : Reference) (more : Bytes) (stk : List Bytes)
+    (h : referenceOk r = true) (hstop : refStop more = true) :
+    referenceField 12 f ⟨refHead r ++ 10 :: (subLinesText (presentLines r) ++ more), stk⟩ =
+      (.ok ({ f with references := f.references ++ [r] }, true), ⟨more, stk⟩) := by
+  simp only [referenceOk, Bool.and_eq_true, Bool.or_eq_true, decide_eq_true_eq, List.all_eq_true] at h
+  obtain ⟨⟨⟨⟨⟨hn0, hn1⟩, hinfo⟩, hdig⟩, _⟩, hsub⟩ := h
+  obtain ⟨n, hn⟩ : ∃ n : Nat, r.number = (n : Int) := ⟨r.number.toNat, by omega⟩
+  have hnum : itoaB r.number = natDigits n := by rw [hn]; simp [itoaB]
+  have hnum' : itoaB (n : Int) = natDigits n := by simp [itoaB]
+  generalize hT : subLinesText (presentLines r) ++ more = T
+  have hlen : (presentLines r).length < T.length + 1 := by
+    have := subLinesText_length_ge (presentLines r)
+    rw [← hT]; simp only [List.length_append]; omega
+  have hloop : ∀ s, refSubfields 12 (T.length + 1) r.info.length (blankRef r) ⟨T, s⟩ = (.ok r, ⟨more, s⟩) := by
+    intro s
+    have := refSubfields_lines (presentLines r) more s r.info.length (blankRef r) (T.length + 1) hsub hstop hlen
+    rw [hT, fold_present] at this; exact this
+  have hfn := fun X s => fieldName_ok (bs "REFERENCE") 12 X s (by decide)
+  have hs3 : sp (12 - (bs "REFERENCE").length) = sp 3 := by decide
+  rw [hs3] at hfn
+  simp only [blankRef, hn] at hloop
+  by_cases hi : r.info = []
+  · -- no info: the number is followed by the line feed
+    have e : refHead r ++ 10 :: T = bs "REFERENCE" ++ (sp 3 ++ (natDigits n ++ 10 :: T)) := by
+      simp [refHead, hi, hnum, bs, sp, List.append_assoc]
+    rw [e]
+    have hint := fun s => int_natDigits n (10 :: T) s (by simp [List.dropWhile, isDigit]) (by omega)
+    have hline := fun s => line_ok [] T s rfl
+    simp only [List.nil_append] at hline
+    have hlit : ∀ s, attempt (lit (sp (3 - (natDigits n).length))) ⟨10 :: T, s⟩ = (.ok (if 3 - (natDigits n).length = 0 then some () else none), ⟨10 :: T, s⟩) := by
+      intro s
+      by_cases h0 : 3 - (natDigits n).length = 0
+      · rw [h0]
+        have := lit_ok [] (10 :: T) s
+        simp only [List.nil_append] at this
+        simp only [sp, List.replicate_zero, attempt_run, this, if_true]
+      · rw [if_neg h0]
+        have hf := lit_fail (sp (3 - (natDigits n).length)) (10 :: T) s
+          (sp_prefix_cons (3 - (natDigits n).length) 10 T (by decide) (by omega))
+        simp only [attempt_run, hf]
+    rw [hi] at hloop
+    simp only [List.length_nil] at hloop
+    simp only [referenceField, P.bind_run, hfn, hint, P.pure_run, hnum', hlit]
+    simp only [hline, getS, P.bind_run, P.pure_run, List.length_nil, hloop]
+  · -- info: padding, then the info line
+    have e : refHead r ++ 10 :: T =
+        bs "REFERENCE" ++ (sp 3 ++ (natDigits n ++ (sp (3 - (natDigits n).length) ++ (r.info ++ 10 :: T)))) := by
+      have : r.info.isEmpty = false := by cases h' : r.info <;> simp_all
+      simp [refHead, this, hnum, bs, sp, List.append_assoc]
+    rw [e]
+    have hdw : (sp (3 - (natDigits n).length) ++ (r.info ++ 10 :: T)).dropWhile isDigit =
+        sp (3 - (natDigits n).length) ++ (r.info ++ 10 :: T) := by
+      apply dropWhile_stop
+      intro c hc
+      by_cases h0 : 3 - (natDigits n).length = 0
+      · rw [h0] at hc
+        simp only [sp, List.replicate_zero, List.nil_append] at hc
+        rcases hdig with hd | hd
+        · rw [hnum] at hd; omega
+        · cases hinf : r.info with
+          | nil => exact absurd hinf hi
+          | cons x t =>
+            rw [hinf] at hc hd
+            simp at hc hd; subst hc; simpa using hd
+      · obtain ⟨k, hk⟩ : ∃ k, 3 - (natDigits n).length = k + 1 := ⟨3 - (natDigits n).length - 1, by omega⟩
+        rw [hk, sp_succ] at hc; simp at hc; subst hc; decide
+    have hint := fun s => int_natDigits n _ s hdw (by omega)
+    have hline := fun s => line_ok r.info T s hinfo
+    simp only [referenceField, P.bind_run, hfn, hint, P.pure_run, hnum']
+    simp only [attempt_run, lit_ok, hline, getS, P.bind_run, P.pure_run, hloop]
 
 end Gts.GenBank
